@@ -17,6 +17,11 @@ pub struct Opts {
     pub process_unmapped: bool,
     pub concurrent_tap_hold: bool,
     pub rapid_event_delay: Option<u16>,
+    // pointer options of the glue (src/kanata/mod.rs handle_move_mouse / MoveMouseAccel arm) and the
+    // Linux output bus type read by `Kanata::new_from_str`; never drawn by `random`
+    pub smooth_diagonals: bool,
+    pub inherit_accel: bool,
+    pub bus_usb: bool,
 }
 
 impl Opts {
@@ -28,6 +33,9 @@ impl Opts {
             process_unmapped: r.chance(1, 3),
             concurrent_tap_hold: false,
             rapid_event_delay: None,
+            smooth_diagonals: false,
+            inherit_accel: false,
+            bus_usb: false,
         }
     }
     pub fn text(&self) -> String {
@@ -45,6 +53,15 @@ impl Opts {
         }
         if let Some(d) = self.rapid_event_delay {
             s.push_str(&format!(" rapid-event-delay {d}"));
+        }
+        if self.smooth_diagonals {
+            s.push_str(" movemouse-smooth-diagonals yes");
+        }
+        if self.inherit_accel {
+            s.push_str(" movemouse-inherit-accel-state yes");
+        }
+        if self.bus_usb {
+            s.push_str(" linux-output-device-bus-type USB");
         }
         s.push_str(")\n");
         s
@@ -207,6 +224,11 @@ pub fn gen_action(r: &mut Rng, c: &Ctx, depth: u32, waiting: bool) -> String {
                 }
                 s.push_str(&a);
             }
+            // aims at the ReverseReleaseOrder arm of handle_keystate_changes (release loop runs over
+            // prev_keys backwards); the PRNG is consulted only where custom actions are allowed
+            if c.allow_custom && r.chance(1, 5) {
+                s.push_str(" reverse-release-order");
+            }
             s.push(')');
             s
         }
@@ -286,7 +308,7 @@ pub fn gen_action(r: &mut Rng, c: &Ctx, depth: u32, waiting: bool) -> String {
         29 if c.allow_custom => format!("({} {})", r.pick(&["unmod", "unshift"]), r.pick(&["q", "w", "1", "x"])),
         // custom actions that act on the OS directly: mouse buttons (held and tapped), wheel, pointer,
         // caps-word, unicode
-        30 if c.allow_custom => match r.below(8) {
+        30 if c.allow_custom => match r.below(18) {
             0 | 1 => (*r.pick(&["mlft", "mrgt", "mmid"])).to_string(),
             2 => (*r.pick(&["mltp", "mrtp"])).to_string(),
             3 => format!("(mwheel-{} {} 120)", r.pick(&["up", "down", "left", "right"]), r.pick(&[5u32, 20, 50])),
@@ -294,6 +316,23 @@ pub fn gen_action(r: &mut Rng, c: &Ctx, depth: u32, waiting: bool) -> String {
             5 => format!("(caps-word {})", r.pick(&[10u32, 50, 200])),
             6 => format!("(unicode {})", r.pick(&["x", "q"])),
             7 if r.chance(1, 2) => format!("(one-shot-pause-processing {})", r.pick(&[3u32, 20, 100])),
+            // the arms of handle_keystate_changes' custom-action match that the narrower grammar never
+            // reached: wheel notches, accelerated pointer movement (and handle_move_mouse's
+            // acceleration ramp), pointer speed, absolute pointer position, arbitrary key codes,
+            // caps-word toggle, the two sleeping delays (1-2 ms of real time), the remaining buttons
+            8 => (*r.pick(&["mwu", "mwd", "mwl", "mwr"])).to_string(),
+            9 | 10 => {
+                let min = *r.pick(&[1u32, 2, 5]);
+                let max = min + *r.pick(&[0u32, 1, 7, 30]);
+                format!("(movemouse-accel-{} {} {} {min} {max})", r.pick(&["up", "left", "down", "right"]), r.pick(&[1u32, 3, 20]), r.pick(&[1u32, 4, 30, 400]))
+            }
+            11 => format!("(movemouse-speed {})", r.pick(&[1u32, 50, 200, 65535])),
+            12 => format!("(setmouse {} {})", r.pick(&[0u32, 5, 65535]), r.pick(&[0u32, 9, 65535])),
+            13 => format!("(arbitrary-code {})", r.pick(&[0u32, 30, 700, 767])),
+            14 => format!("(caps-word-toggle {})", r.pick(&[10u32, 50, 200])),
+            15 => format!("(caps-word-custom-toggle {} (q w x) (1 2))", r.pick(&[10u32, 50, 200])),
+            16 => format!("({} {})", r.pick(&["on-press-delay", "on-release-delay"]), r.pick(&[1u32, 2])),
+            17 => (*r.pick(&["mfwd", "mbck", "mmtp", "mftp", "mbtp"])).to_string(),
             _ => (*r.pick(&["mlft", "mrgt"])).to_string(),
         },
         _ => out_key(r),
@@ -317,6 +356,13 @@ pub fn gen_full_cfg_opt(r: &mut Rng, allow_custom: bool, latch_free: bool) -> (S
         2 => Some(3),
         _ => None,
     };
+    if allow_custom {
+        // the pointer actions read these (smooth diagonals: movemouse_buffer / move_mouse_many;
+        // inherited acceleration state: the first arm of the MoveMouseAccel match)
+        opts.smooth_diagonals = r.chance(1, 3);
+        opts.inherit_accel = r.chance(1, 3);
+        opts.bus_usb = r.chance(1, 8);
+    }
     let mut chord_groups = vec![];
     let mut s = opts.text();
     if r.chance(1, 2) && nkeys >= 3 {
@@ -378,4 +424,19 @@ pub fn gen_full_cfg_opt(r: &mut Rng, allow_custom: bool, latch_free: bool) -> (S
         keys.push(code("m"));
     }
     (s, keys)
+}
+
+/// A zippychord configuration whose dictionary travels inside the text (`;;file` line, see
+/// `kan::cfg_files`), with a caps-word key and both kinds of modifier next to the chord keys: aims at
+/// the `zchd_is_caps_word_active` branches of src/kanata/output_logic/zippychord.rs (shift handling
+/// while expanding, re-pressing shift afterwards), which need zippychord and caps-word together.
+/// Outside the kanata-level model: judged by the model-free clauses of C01 and C02.
+/// Returns (text, physical keys).
+pub fn zippy_capsword_cfg(smart_space: &str, capsword_ms: u32) -> (String, Vec<u16>) {
+    let dict = "dy\tday\ndy 1\tMonday\n yd\tYesterday\nd1\tx\n";
+    let text = format!(
+        ";;file zd {}\n(defsrc a b c d y 1 spc)\n(deflayer l0 lsft ralt (caps-word {capsword_ms}) d y 1 spc)\n(defzippy zd on-first-press-chord-deadline 40 idle-reactivate-time 30 smart-space {smart_space})\n",
+        crate::lay::hex(dict)
+    );
+    (text, ["a", "b", "c", "d", "y", "1", "spc"].iter().map(|k| code(k)).collect())
 }
